@@ -161,11 +161,13 @@ static int apply(qlisttbl_t *t, model_t *m, const op_t *op, int check, const cha
         case OP_REMOVEOBJ: {   /* remove the k-th entry met during an unfiltered walk; the walk continues */
             if (op->k >= m->n) return 1;
             qlisttbl_obj_t ob; memset(&ob, 0, sizeof ob); int c = 0, bad = 0; int n0 = m->n;
-            while (t->getnext(t, &ob, NULL, false)) {
-                if (c > 32) { bad = 1; break; }
+            int nm = op->v;   /* copying walk: the cursor then carries the caller's own copies, which removeobj must leave alone */
+            while (t->getnext(t, &ob, NULL, nm)) {
+                if (c > 32) { bad = 1; if (nm) { free(ob.name); free(ob.data); } break; }
                 int idx = lk(m, c);   /* index in the model before removal */
                 if (nameid(ob.name) != m->nm[idx] || valid(ob.data, ob.size) != m->vl[idx]) bad = 1;
                 if (c == op->k) { if (!t->removeobj(t, &ob) && check) vc_viol("multimap:removeobj-failed", "%s: removeobj returned false", after); }
+                if (nm) { sm_hold(ob.name, ob.name, strlen(ob.name) + 1, "qlisttbl_getnext(newmem) name"); if (ob.data) sm_hold(ob.data, ob.data, ob.size, "qlisttbl_getnext(newmem) data"); }
                 c++;
             }
             if (check && (bad || c != n0)) vc_viol("multimap:removeobj-walk", "%s: walk with removal of entry %d visited %d entries (expected %d) or met wrong entries", after, op->k, c, n0);
@@ -215,7 +217,7 @@ static void setup(void) {
     NOPS = 0;
     for (int k = 0; k < 3; k++) for (int v = 0; v < NV; v++) OPS[NOPS++] = (op_t){OP_PUT, k, v, VAL[v].kind == 0 ? "qlisttbl_putstr" : VAL[v].kind == 1 ? "qlisttbl_putint" : "qlisttbl_put"};
     for (int k = 0; k < 4; k++) OPS[NOPS++] = (op_t){OP_REMOVE, k, 0, "qlisttbl_remove"};
-    for (int i = 0; i < L; i++) OPS[NOPS++] = (op_t){OP_REMOVEOBJ, i, 0, "qlisttbl_removeobj"};
+    for (int i = 0; i < L; i++) for (int nm = 0; nm < 2; nm++) OPS[NOPS++] = (op_t){OP_REMOVEOBJ, i, nm, "qlisttbl_removeobj"};
     OPS[NOPS++] = (op_t){OP_SORT, 0, 0, "qlisttbl_sort"};
     OPS[NOPS++] = (op_t){OP_CLEAR, 0, 0, "qlisttbl_clear"};
     snprintf(SP.prefix, sizeof SP.prefix, "listtbl:%d:%d:%d:", OPT, L, NV);
